@@ -3,8 +3,9 @@ CONSTANTS
   Reqs <- Reqs2
   Parts <- P13
   RegAfter <- RegFirst
+  KeyOf <- IdKey
   Dups = {}
   LookupAtomic = TRUE
   FailIdx = {}
-INVARIANTS NoSpurious MatchOnce NoLoss EmitSized
+INVARIANTS NoSpurious MatchOnce NoLoss RightType EmitSized
 CHECK_DEADLOCK FALSE
